@@ -357,6 +357,7 @@ type Caps struct {
 	Defaults     bool
 	ListsInLists bool
 	Int64        bool
+	NoEnums      bool // struct-backed Reflect cannot read an unset string-typed enum field
 }
 
 func FullCaps() Caps {
@@ -391,6 +392,9 @@ func (g *gen) leaf(key bool, keyInt bool) *Node {
 		return l
 	}
 	types := []string{"string", "int32", "enum", "string", "int32"}
+	if g.caps.NoEnums {
+		types = []string{"string", "int32", "string", "int32"}
+	}
 	if g.caps.Bools {
 		types = append(types, "boolean")
 	}
